@@ -214,3 +214,45 @@ pub fn natural_order(rng: &mut Rng, lg_k: u8, c_max: u64) -> Vec<u32> {
     ev.truncate(c_max as usize);
     ev.into_iter().map(|e| e.1).collect()
 }
+
+
+/// Expected number of distinct coupons after n distinct items: each of the K x 64 cells (row, col) is hit by an
+/// item with probability 2^-(col+1)/K (the last column takes the remaining tail).
+pub fn expected_coupons(lg_k: u8, n: f64) -> f64 {
+    let k = (1u64 << lg_k) as f64;
+    let mut sum = 0.0;
+    for col in 0..64 {
+        let p = if col < 63 { (0.5f64).powi(col + 1) / k } else { (0.5f64).powi(63) / k };
+        // 1 - (1-p)^n, stable for tiny p
+        sum += k * -(n * (-p).ln_1p()).exp_m1();
+    }
+    sum
+}
+
+/// The ICON estimator by its definition: the n at which the expected coupon count equals C (bisection on the exact
+/// expectation; independent of the library's polynomial / exponential approximations).
+pub fn icon_reference(lg_k: u8, c: u64) -> f64 {
+    if c == 0 {
+        return 0.0;
+    }
+    let target = c as f64;
+    let (mut lo, mut hi) = (0.0f64, 1.0f64);
+    while expected_coupons(lg_k, hi) < target {
+        hi *= 2.0;
+        if hi > 1e30 {
+            return f64::INFINITY;
+        }
+    }
+    for _ in 0..200 {
+        let mid = 0.5 * (lo + hi);
+        if expected_coupons(lg_k, mid) < target {
+            lo = mid;
+        } else {
+            hi = mid;
+        }
+        if (hi - lo) <= 1e-10 * hi {
+            break;
+        }
+    }
+    0.5 * (lo + hi)
+}
